@@ -245,11 +245,16 @@ package engine
 
 // ---- captures and back-references (C02) ----
 //@ func (ValueHashMap).Copy [C02]
-//@   trusted
-//@   requires v.Value != nil
+//@   nopanic none
+//@   presumes v.Value != nil
 //@   ensures result is ValueHashMap && fresh((result as ValueHashMap).Value) && domain((result as ValueHashMap).Value) == domain(v.Value)
 //@   ensures forall k Str :: { select(values((result as ValueHashMap).Value), k) } has(v.Value, k) && (v.Value[k] is ValueString) ==> (result as ValueHashMap).Value[k] == v.Value[k]
 //@   ensures kinds: forall k Str :: { select(values((result as ValueHashMap).Value), k) } has(v.Value, k) && v.Value[k] != nil ==> (result as ValueHashMap).Value[k] != nil && (((result as ValueHashMap).Value[k] is ValueString) == (v.Value[k] is ValueString)) [C05]
+//@   loop 1 invariant result.Value != nil && fresh(result.Value) && result.Value != v.Value
+//@   loop 1 invariant forall q Str :: { select(rangevisited, q) } { select(domain(result.Value), q) } select(rangevisited, q) == has(result.Value, q)
+//@   loop 1 invariant forall q Str :: { select(rangevisited, q) } select(rangevisited, q) ==> has(v.Value, q)
+//@   loop 1 invariant forall q Str :: { select(values(result.Value), q) } has(result.Value, q) && (v.Value[q] is ValueString) ==> result.Value[q] == v.Value[q]
+//@   loop 1 invariant forall q Str :: { select(values(result.Value), q) } has(result.Value, q) && v.Value[q] != nil ==> result.Value[q] != nil && ((result.Value[q] is ValueString) == (v.Value[q] is ValueString)) [C05]
 
 //@ pred noNamedLoop(es *SearchEngineState) := forall k :: { es.loopStack.store[k].name } 0 <= k && k < len(es.loopStack.store) ==> es.loopStack.store[k].name == ""
 
@@ -803,10 +808,15 @@ package engine
 //@   ensures state: result != nil && fresh(result) && result.programCounter == 0 && result.match == match && varsOk(result.variables) && fresh(result.variables.Value)
 //@   ensures names: forall n Str :: { select(values(result.variables.Value), n) } { select(domain(result.variables.Value), n) } varText(result.variables, n) == replVar(match, totalMatches, n)
 
+// Keys: every key of the map, each once (IDX records where a key was appended)
 //@ func (ValueHashMap).Keys [C05]
-//@   trusted
 //@   ensures sound: forall j :: { result[j] } 0 <= j && j < len(result) ==> has(v.Value, result[j])
+//@   ensures complete: forall q Str :: { select(domain(v.Value), q) } has(v.Value, q) ==> 0 <= select(IDX, q) && select(IDX, q) < len(result) && result[select(IDX, q)] == q
 //@   ensures fresh: fresh(result) || len(result) == 0
+//@   loop 1 ghost IDX (Array Str Int) := IDX ;; store(IDX, k, len(res) - 1)
+//@   loop 1 invariant forall j :: { res[j] } 0 <= j && j < len(res) ==> has(v.Value, res[j]) && select(rangevisited, res[j])
+//@   loop 1 invariant forall q Str :: { select(rangevisited, q) } select(rangevisited, q) ==> 0 <= select(IDX, q) && select(IDX, q) < len(res) && res[select(IDX, q)] == q
+//@   loop 1 invariant fresh(res) || cap(res) == 0
 
 //@ func executeReplaceString [C05]
 //@   requires current_state != nil
